@@ -13,36 +13,36 @@ def slotTime (i : Nat) : TimeArg := .hm (i / 2) (i % 2 * 30)
 
 /-! ### `set_state` -/
 
-/-- **exact slots**: a call succeeds iff the state is one of the four, both times parse and the
-end is after the start; the day afterwards is the day before with exactly the slots
+/-- **exact slots**: a call succeeds iff the state is one of the four, both times parse, the
+end is after the start and the day has the slots addressed (always so for a 48-slot day, see
+`set_never_index_error_48`); the day afterwards is the day before with exactly the slots
 `lo .. hi` (inclusive) set to the requested state -/
 theorem set_exact (day : List Bool) (st : String) (s e : TimeArg) (day' : List Bool) :
     setState day st s e = (day', .ok) ↔
-      validStates.contains st = true ∧ ∃ lo hi, timeRange s e = some (lo, hi) ∧
+      validStates.contains st = true ∧ ∃ lo hi, timeRange s e = some (lo, hi) ∧ hi < day.length ∧
         day' = day.mapIdx (fun i b => if lo ≤ i ∧ i ≤ hi then onStates.contains st else b) := by
-  have hfun : ∀ lo hi (v : Bool), (fun (i : Nat) (b : Bool) => if lo ≤ i ∧ i < lo + (hi + 1 - lo) then v else b) =
-      (fun i b => if lo ≤ i ∧ i ≤ hi then v else b) := by
-    intro lo hi v
-    funext i b
-    by_cases h : lo ≤ i ∧ i ≤ hi
-    · have : lo ≤ i ∧ i < lo + (hi + 1 - lo) := by omega
-      rw [if_pos h, if_pos this]
-    · have : ¬ (lo ≤ i ∧ i < lo + (hi + 1 - lo)) := by omega
-      rw [if_neg h, if_neg this]
-  unfold setState
   cases hv : validStates.contains st with
-  | false => simp
+  | false => rw [setState_none day st s e (Or.inl hv)]; simp
   | true =>
     cases ht : timeRange s e with
-    | none => simp
+    | none => rw [setState_none day st s e (Or.inr ht)]; simp
     | some r =>
       obtain ⟨lo, hi⟩ := r
-      simp only [if_true, fillRange_eq_mapIdx, hfun, Prod.mk.injEq, and_true, true_and, Option.some.injEq]
+      rw [setState_some day st s e lo hi hv ht]
       constructor
-      · intro h; exact ⟨lo, hi, ⟨rfl, rfl⟩, h.symm⟩
-      · rintro ⟨lo', hi', ⟨rfl, rfl⟩, h⟩; exact h.symm
+      · intro h
+        simp only [Prod.mk.injEq] at h
+        have hlt : hi < day.length := by
+          by_cases hc : hi < day.length
+          · exact hc
+          · rw [if_neg hc] at h; cases h.2
+        exact ⟨rfl, lo, hi, rfl, hlt, h.1.symm⟩
+      · rintro ⟨_, lo', hi', heq, hlt, h⟩
+        simp only [Option.some.injEq, Prod.mk.injEq] at heq
+        obtain ⟨rfl, rfl⟩ := heq
+        rw [h, if_pos hlt]
 
-/-- the day keeps its number of slots (48 for every decoded day), whatever the call -/
+/-- the day keeps its number of slots, whatever the call -/
 theorem set_length (day : List Bool) (st : String) (s e : TimeArg) :
     (setState day st s e).1.length = day.length := by
   unfold setState
@@ -52,46 +52,102 @@ theorem set_length (day : List Bool) (st : String) (s e : TimeArg) :
     · rfl
   · rfl
 
-/-- **errors are inert**: a call that raises leaves the day as it was -/
+/-- **ValueError is inert** (days of any length): a call that raises ValueError leaves the day
+as it was -/
 theorem set_error_inert (day : List Bool) (st : String) (s e : TimeArg)
-    (h : (setState day st s e).2 ≠ .ok) : (setState day st s e).1 = day := by
-  revert h
-  unfold setState
+    (h : (setState day st s e).2 = .valueError) : (setState day st s e).1 = day := by
   cases hv : validStates.contains st with
-  | false => simp
+  | false => rw [setState_none day st s e (Or.inl hv)]
   | true =>
     cases ht : timeRange s e with
-    | none => simp
-    | some r => simp
+    | none => rw [setState_none day st s e (Or.inr ht)]
+    | some r =>
+      obtain ⟨lo, hi⟩ := r
+      rw [setState_some day st s e lo hi hv ht] at h
+      simp only at h
+      split at h <;> cases h
 
-/-- … and the errors are exactly: invalid state, unparsable time, end not after start (where an
-end of exactly 00:00 counts as 23:30); never KeyError -/
+/-- on a 48-slot day with parsed times of day (hour < 24, minute < 60) the only error is
+ValueError — so for the days the decoder produces EVERY error leaves the day unchanged -/
+theorem set_never_index_error_48 (day : List Bool) (hlen : day.length = 48) (st : String)
+    (s e : TimeArg) (hs : ∀ h m, s = .hm h m → h < 24 ∧ m < 60) (he : ∀ h m, e = .hm h m → h < 24 ∧ m < 60) :
+    (setState day st s e).2 = .ok ∨
+      ((setState day st s e).2 = .valueError ∧ (setState day st s e).1 = day) := by
+  cases hv : validStates.contains st with
+  | false => rw [setState_none day st s e (Or.inl hv)]; exact Or.inr ⟨rfl, rfl⟩
+  | true =>
+    cases ht : timeRange s e with
+    | none => rw [setState_none day st s e (Or.inr ht)]; exact Or.inr ⟨rfl, rfl⟩
+    | some r =>
+      obtain ⟨lo, hi⟩ := r
+      rw [setState_some day st s e lo hi hv ht]
+      left
+      cases s with
+      | bad => simp [timeRange] at ht
+      | hm sh sm =>
+        cases e with
+        | bad => simp [timeRange] at ht
+        | hm eh em =>
+          have := he eh em rfl
+          have hlt := timeRange_lt sh sm eh em lo hi this.1 this.2 ht
+          simp only
+          rw [if_pos (by omega)]
+
+/-- **a shorter, hand-made day is edited partially**: when the day lacks the last addressed slot
+the call raises IndexError, but only after the slots `lo .. len-1` have been written — "an
+error changes nothing" holds for 48-slot days only -/
+theorem set_partial_on_short_day (day : List Bool) (st : String) (s e : TimeArg) (lo hi : Nat)
+    (hv : validStates.contains st = true) (ht : timeRange s e = some (lo, hi))
+    (hshort : day.length ≤ hi) :
+    setState day st s e =
+      (day.mapIdx (fun i b => if lo ≤ i then onStates.contains st else b), .indexError) := by
+  rw [setState_some day st s e lo hi hv ht, if_neg (by omega)]
+  congr 1
+  apply List.ext_getElem?
+  intro i
+  simp only [List.getElem?_mapIdx]
+  cases hg : day[i]? with
+  | none => rfl
+  | some b =>
+    have hi' : i < day.length := by
+      rcases List.getElem?_eq_some_iff.mp hg with ⟨h, _⟩; exact h
+    by_cases hc : lo ≤ i
+    · have : lo ≤ i ∧ i ≤ hi := ⟨hc, by omega⟩
+      simp [hc, this]
+    · simp [hc]
+
+/-- … and the errors of the statement are exactly: invalid state, unparsable time, end not after
+start (where an end of exactly 00:00 counts as 23:30) -/
 theorem set_error_iff (day : List Bool) (st : String) (s e : TimeArg) :
     (setState day st s e).2 = .valueError ↔
       (validStates.contains st = false ∨ s = .bad ∨ e = .bad ∨
         ∃ sh sm eh em, s = .hm sh sm ∧ e = .hm eh em ∧
           (if eh = 0 ∧ em = 0 then 23 * 60 + 30 else eh * 60 + em) ≤ sh * 60 + sm) := by
-  unfold setState
   cases hv : validStates.contains st with
-  | false => simp
+  | false => rw [setState_none day st s e (Or.inl hv)]; simp
   | true =>
     cases s with
-    | bad => simp [timeRange]
+    | bad => rw [setState_none day st _ e (Or.inr (by simp [timeRange]))]; simp
     | hm sh sm =>
       cases e with
-      | bad => simp [timeRange]
+      | bad => rw [setState_none day st _ _ (Or.inr (by simp [timeRange]))]; simp
       | hm eh em =>
         have h24 : 24 * 60 - 30 = 23 * 60 + 30 := rfl
-        simp only [timeRange, stepMin, if_true, h24]
         by_cases hc : (if eh = 0 ∧ em = 0 then 23 * 60 + 30 else eh * 60 + em) ≤ sh * 60 + sm
-        · rw [if_pos hc]
+        · have ht : timeRange (.hm sh sm) (.hm eh em) = none := by
+            simp only [timeRange, stepMin, h24, if_pos hc]
+          rw [setState_none day st _ _ (Or.inr ht)]
           constructor
           · intro _
             exact Or.inr (Or.inr (Or.inr ⟨sh, sm, eh, em, rfl, rfl, hc⟩))
           · intro _; rfl
-        · rw [if_neg hc]
+        · have ht : timeRange (.hm sh sm) (.hm eh em) = some ((sh * 60 + sm) / 30,
+              (if eh = 0 ∧ em = 0 then 23 * 60 + 30 else eh * 60 + em) / 30) := by
+            simp only [timeRange, stepMin, h24, if_neg hc]
+          rw [setState_some day st _ _ _ _ hv ht]
           constructor
-          · intro h; cases h
+          · intro h
+            exact absurd h (ite_ok_index_ne _)
           · intro h
             rcases h with h | h | h | ⟨a, b, c, d, h1, h2, h3⟩
             · cases h
@@ -129,6 +185,7 @@ theorem holds_set (day : List Bool) (hlen : day.length = 48) (st : String) (i j 
     specSet day (validStates.contains st) (onStates.contains st) i j
       ((setState day st (slotTime i) (slotTime j)).2 != .ok)
       (setState day st (slotTime i) (slotTime j)).1 = true := by
+  have hend : endSlot j < 48 := by unfold endSlot; split <;> omega
   unfold specSet setState
   cases hv : validStates.contains st with
   | false => simp
@@ -138,7 +195,7 @@ theorem holds_set (day : List Bool) (hlen : day.length = 48) (st : String) (i j 
     · have : ¬ (i < endSlot j) := by omega
       simp [h, this]
     · have hlt : i < endSlot j := by omega
-      simp only [if_neg h, hlt, if_true, Bool.true_and, decide_true, length_fillRange, hlen]
+      simp only [if_neg h, hlt, if_true, Bool.true_and, decide_true, length_fillRange, hlen, hend]
       simp only [bne_self_eq_false, Bool.not_false, beq_self_eq_true, Bool.true_and, List.all_eq_true,
         List.mem_range, beq_iff_eq]
       intro k hk
@@ -201,16 +258,18 @@ theorem edit_rows (idx : Nat) (t : List (List Bool)) (ed : Edit) (r : Nat) :
       simp [hr, this]
   · simp [hi]
 
-/-- **commit payload**: a response decodes to entries `es`, all with a known schedule index; `e`
-is the (last) entry for its index and carries a defined parameter.  After ANY sequence of
-edits the committed payload is `[1, index, switch, parameter]` followed by the encoding, row 0
-= Sunday first, of the received table with exactly the edits addressed to that schedule applied. -/
-theorem commit_payload (msg : List Byte) (es : List Entry) (e : Entry) (p : Nat) (edits : List Edit)
+/-- **the last response wins**: whatever the device held before (`dev0`: earlier responses for
+the same or other schedules, earlier edits), once a response decodes to entries `es`, all with
+a known schedule index, where `e` is the (last) entry for its index and carries a defined
+parameter, then after ANY sequence of edits the committed payload is `[1, index, switch,
+parameter]` followed by the encoding, row 0 = Sunday first, of the table of THAT response with
+exactly the edits made after it and addressed to that schedule applied. -/
+theorem last_response_wins (dev0 : Device) (msg : List Byte) (es : List Entry) (e : Entry) (p : Nat) (edits : List Edit)
     (hdec : decodeResponse msg = some es)
     (hknown : es.all (fun x => decide (x.idx < schedulesCount)) = true)
     (hlast : es.reverse.find? (fun x => x.idx == e.idx) = some e)
     (hpar : e.param = some p) :
-    ∃ dev, Device.init.receive msg = some dev ∧
+    ∃ dev, dev0.receive msg = some dev ∧
       (dev.applyEdits edits).commit e.idx =
         some ([1, e.idx.toUInt8, e.switch.toUInt8, p.toUInt8] ++ encodeWeek (editTable e.idx e.table edits)) := by
   have hmem : e ∈ es := by
@@ -226,10 +285,10 @@ theorem commit_payload (msg : List Byte) (es : List Entry) (e : Entry) (p : Nat)
     · obtain ⟨bm, hbm, ht⟩ := decodeEntries_tables n data es h e hmem
       rw [ht]; exact (decodeWeek_shape bm hbm).1
     · rw [h] at hmem; simp at hmem
-  have hrecv : Device.init.receive msg = some
+  have hrecv : dev0.receive msg = some
       ⟨es.foldl (fun d x => dictSet d x.idx (Week.ofTable x.table)) [],
-       es.foldl (fun d x => dictSet d x.idx x.switch) Device.init.switches,
-       es.foldl (fun d x => dictSetOpt d x.idx x.param) Device.init.params⟩ := by
+       es.foldl (fun d x => dictSet d x.idx x.switch) dev0.switches,
+       es.foldl (fun d x => dictSetOpt d x.idx x.param) dev0.params⟩ := by
     simp only [Device.receive, hdec, hknown, if_true]
   refine ⟨_, hrecv, ?_⟩
   -- the three lookups after the response
@@ -238,21 +297,33 @@ theorem commit_payload (msg : List Byte) (es : List Entry) (e : Entry) (p : Nat)
     have := dictGet_foldl_set (fun x : Entry => x.idx) (fun x => some (Week.ofTable x.table)) es [] e.idx
     simp only [Option.isSome_some, Bool.and_true, hlast, dictSetOpt] at this
     exact this
-  have hsw : dictGet (es.foldl (fun d x => dictSet d x.idx x.switch) Device.init.switches) e.idx = some e.switch := by
-    have := dictGet_foldl_set (fun x : Entry => x.idx) (fun x => some x.switch) es Device.init.switches e.idx
+  have hsw : dictGet (es.foldl (fun d x => dictSet d x.idx x.switch) dev0.switches) e.idx = some e.switch := by
+    have := dictGet_foldl_set (fun x : Entry => x.idx) (fun x => some x.switch) es dev0.switches e.idx
     simp only [Option.isSome_some, Bool.and_true, hlast, dictSetOpt] at this
     exact this
-  have hp : dictGet (es.foldl (fun d x => dictSetOpt d x.idx x.param) Device.init.params) e.idx = some p := by
-    have := dictGet_foldl_set (fun x : Entry => x.idx) (fun x => x.param) es Device.init.params e.idx
+  have hp : dictGet (es.foldl (fun d x => dictSetOpt d x.idx x.param) dev0.params) e.idx = some p := by
+    have := dictGet_foldl_set (fun x : Entry => x.idx) (fun x => x.param) es dev0.params e.idx
     rw [find?_and_of_find? _ (fun x => x.param.isSome) _ e hlast (by simp [hpar])] at this
     rw [this]; exact hpar
   obtain ⟨h1, h2, h3⟩ := applyEdits_spec
     ⟨es.foldl (fun d x => dictSet d x.idx (Week.ofTable x.table)) [],
-     es.foldl (fun d x => dictSet d x.idx x.switch) Device.init.switches,
-     es.foldl (fun d x => dictSetOpt d x.idx x.param) Device.init.params⟩
+     es.foldl (fun d x => dictSet d x.idx x.switch) dev0.switches,
+     es.foldl (fun d x => dictSetOpt d x.idx x.param) dev0.params⟩
     e.idx e.table htab hsched edits
   simp only [Device.commit, h1, h2, h3, hsw, hp]
   rw [Week.toTable_ofTable _ (by rw [editTable_length]; exact htab)]
+
+
+/-- **commit payload**: the same from a fresh device -/
+theorem commit_payload (msg : List Byte) (es : List Entry) (e : Entry) (p : Nat) (edits : List Edit)
+    (hdec : decodeResponse msg = some es)
+    (hknown : es.all (fun x => decide (x.idx < schedulesCount)) = true)
+    (hlast : es.reverse.find? (fun x => x.idx == e.idx) = some e)
+    (hpar : e.param = some p) :
+    ∃ dev, Device.init.receive msg = some dev ∧
+      (dev.applyEdits edits).commit e.idx =
+        some ([1, e.idx.toUInt8, e.switch.toUInt8, p.toUInt8] ++ encodeWeek (editTable e.idx e.table edits)) :=
+  last_response_wins Device.init msg es e p edits hdec hknown hlast hpar
 
 /-- **unedited round trip through the device**: a response carrying one schedule, committed
 without edits, sends back exactly the received index, switch, parameter value and bitmap -/
@@ -321,6 +392,219 @@ theorem holds_commit (msg : List Byte) (es : List Entry) (e : Entry) (p : Nat) (
   have hdrop : ([1, e.idx.toUInt8, e.switch.toUInt8, p.toUInt8] ++ encodeWeek (editTable e.idx e.table edits)).drop 4 =
       encodeWeek (editTable e.idx e.table edits) := by simp
   rw [hdrop, ← slot_layout _ hlen42 d i hd hi, decodeWeek_encodeWeek _ hrows]
+
+/-! ### slot-level reading of whole edit lists -/
+
+/-- a `set_state` call with half-hour aligned times on schedule `idx`: start slot `i`, end slot
+number `j` (0 = 00:00) -/
+structure AEdit where
+  idx : Nat
+  day : Weekday
+  state : String
+  i : Nat
+  j : Nat
+
+def AEdit.toEdit (a : AEdit) : Edit := ⟨a.idx, a.day, a.state, slotTime a.i, slotTime a.j⟩
+def AEdit.toSlot (a : AEdit) : SlotEdit :=
+  ⟨a.day.pos, validStates.contains a.state, onStates.contains a.state, a.i, a.j⟩
+
+theorem weekday_pos_lt (d : Weekday) : d.pos < 7 := by cases d <;> decide
+
+/-- one aligned edit on a 7 × 48 table, slot by slot, is the statement's `SlotEdit.apply` -/
+theorem edit_slot (t : List (List Bool)) (ht : t.length = 7) (hrows : ∀ r ∈ t, r.length = 48)
+    (a : AEdit) (hi : a.i < 48) (hj : a.j < 48) (d k : Nat) (hd : d < 7) (hk : k < 48) :
+    ((t.set a.day.pos (setState (t.getD a.day.pos []) a.state (slotTime a.i) (slotTime a.j)).1).getD d []).getD k false =
+      a.toSlot.apply d k ((t.getD d []).getD k false) := by
+  have hpos := weekday_pos_lt a.day
+  by_cases hdp : a.day.pos = d
+  · subst hdp
+    have hlt : a.day.pos < t.length := by omega
+    have hrow : (t.getD a.day.pos []).length = 48 := by
+      apply hrows
+      rw [List.getD_eq_getElem?_getD, List.getElem?_eq_getElem hlt]
+      simp
+    have hget : (t.set a.day.pos (setState (t.getD a.day.pos []) a.state (slotTime a.i) (slotTime a.j)).1).getD a.day.pos [] =
+        (setState (t.getD a.day.pos []) a.state (slotTime a.i) (slotTime a.j)).1 := by
+      simp [List.getD_eq_getElem?_getD, hlt]
+    rw [hget]
+    simp only [SlotEdit.apply, AEdit.toSlot, true_and]
+    cases hv : validStates.contains a.state with
+    | false => rw [setState_none _ _ _ _ (Or.inl hv)]; simp
+    | true =>
+      by_cases hc : endSlot a.j ≤ a.i
+      · have ht' : timeRange (slotTime a.i) (slotTime a.j) = none := by
+          rw [time_range_aligned a.i a.j hi hj, if_pos hc]
+        have : ¬ (a.i < endSlot a.j) := by omega
+        rw [setState_none _ _ _ _ (Or.inr ht')]
+        simp [this]
+      · have ht' : timeRange (slotTime a.i) (slotTime a.j) = some (a.i, endSlot a.j) := by
+          rw [time_range_aligned a.i a.j hi hj, if_neg hc]
+        have hlt' : a.i < endSlot a.j := by omega
+        rw [setState_some _ _ _ _ _ _ hv ht']
+        have hk' : k < (t.getD a.day.pos []).length := by omega
+        have hk'' : k < (t[a.day.pos]?.getD []).length := by
+          simpa [List.getD_eq_getElem?_getD] using hk'
+        simp only [List.getD_eq_getElem?_getD, List.getElem?_mapIdx, hlt', true_and]
+        rw [List.getElem?_eq_getElem hk'']
+        by_cases hcond : a.i ≤ k ∧ k ≤ endSlot a.j <;> simp [hcond]
+  · have hne : ¬ (a.toSlot.valid = true ∧ a.toSlot.i < endSlot a.toSlot.j ∧ a.toSlot.day = d ∧
+        a.toSlot.i ≤ k ∧ k ≤ endSlot a.toSlot.j) := by
+      intro h; exact hdp h.2.2.1
+    simp only [SlotEdit.apply, if_neg hne]
+    simp [List.getD_eq_getElem?_getD, hdp]
+
+/-- **link**: for ANY list of aligned edits (to this and to other schedules, valid or not), every
+slot of the edited table is the statement's slot-level expectation — the received slot with
+the edits addressed to this schedule applied in order -/
+theorem edit_table_slots (idx : Nat) (t : List (List Bool)) (ht : t.length = 7)
+    (hrows : ∀ r ∈ t, r.length = 48) (aes : List AEdit) (hal : ∀ a ∈ aes, a.i < 48 ∧ a.j < 48)
+    (d k : Nat) (hd : d < 7) (hk : k < 48) :
+    ((editTable idx t (aes.map AEdit.toEdit)).getD d []).getD k false =
+      expectedSlot (fun d k => (t.getD d []).getD k false)
+        ((aes.filter (fun a => a.idx == idx)).map AEdit.toSlot) d k := by
+  induction aes generalizing t with
+  | nil => simp [editTable, expectedSlot]
+  | cons a rest ih =>
+    have ha := hal a (by simp)
+    have hrest : ∀ x ∈ rest, x.i < 48 ∧ x.j < 48 := fun x hx => hal x (by simp [hx])
+    by_cases hidx : a.idx = idx
+    · have hstep : editTable idx t ((a :: rest).map AEdit.toEdit) =
+          editTable idx (t.set a.day.pos (setState (t.getD a.day.pos []) a.state (slotTime a.i) (slotTime a.j)).1)
+            (rest.map AEdit.toEdit) := by
+        simp [editTable, AEdit.toEdit, hidx]
+      have hrows' : ∀ r ∈ t.set a.day.pos (setState (t.getD a.day.pos []) a.state (slotTime a.i) (slotTime a.j)).1,
+          r.length = 48 := by
+        have := editTable_rows idx t [a.toEdit] hrows
+        simpa [editTable, AEdit.toEdit, hidx] using this
+      rw [hstep, ih _ (by simp [ht]) hrows' hrest]
+      have hb : (a.idx == idx) = true := by simp [hidx]
+      have hf : (a :: rest).filter (fun a => a.idx == idx) = a :: rest.filter (fun a => a.idx == idx) := by
+        simp [List.filter, hb]
+      rw [hf]
+      simp only [expectedSlot, List.map_cons, List.foldl_cons]
+      rw [edit_slot t ht hrows a ha.1 ha.2 d k hd hk]
+    · have hstep : editTable idx t ((a :: rest).map AEdit.toEdit) = editTable idx t (rest.map AEdit.toEdit) := by
+        simp [editTable, AEdit.toEdit, hidx]
+      have hb : (a.idx == idx) = false := by simp [hidx]
+      have hf : (a :: rest).filter (fun a => a.idx == idx) = rest.filter (fun a => a.idx == idx) := by
+        simp [List.filter, hb]
+      rw [hstep, hf, ih t ht hrows hrest]
+
+/-- the committed payload judged by the statement's own slot-level predicate: header, 46 bytes,
+and every slot of its bitmap is the RECEIVED slot (`slotBit` of the received 42 bytes) with
+exactly the aligned edits addressed to this schedule applied -/
+theorem holds_commit_slots (msg : List Byte) (es : List Entry) (e : Entry) (p : Nat) (bm : List Byte)
+    (aes : List AEdit) (hal : ∀ a ∈ aes, a.i < 48 ∧ a.j < 48)
+    (hdec : decodeResponse msg = some es)
+    (hknown : es.all (fun x => decide (x.idx < schedulesCount)) = true)
+    (hlast : es.reverse.find? (fun x => x.idx == e.idx) = some e)
+    (hpar : e.param = some p) (hbm : bm.length = 42) (htab : e.table = decodeWeek bm) :
+    ∃ dev payload, Device.init.receive msg = some dev ∧
+      (dev.applyEdits (aes.map AEdit.toEdit)).commit e.idx = some payload ∧
+      specCommit e.idx e.switch p
+        (expectedSlot (slotBit bm) ((aes.filter (fun a => a.idx == e.idx)).map AEdit.toSlot)) payload = true := by
+  obtain ⟨dev, payload, hr, hc, hs⟩ := holds_commit msg es e p (aes.map AEdit.toEdit) hdec hknown hlast hpar
+  refine ⟨dev, payload, hr, hc, ?_⟩
+  have hshape := decodeWeek_shape bm hbm
+  unfold specCommit at hs ⊢
+  simp only [Bool.and_eq_true, List.all_eq_true, List.mem_range, beq_iff_eq] at hs ⊢
+  refine ⟨hs.1, ?_⟩
+  intro d hd k hk
+  rw [hs.2 d hd k hk, htab, edit_table_slots e.idx (decodeWeek bm) hshape.1 hshape.2 aes hal d k hd hk]
+  simp only [expectedSlot, slot_layout bm hbm d k hd hk]
+
+/-! ### the write queue: serialisation happens when the frame is written (finding F6) -/
+
+/-- `commit()` followed at once by the producer's write transmits the commit-time payload -/
+theorem commit_then_drain (dev : Device) (idx : Nat) (p : List Byte) (h : dev.commit idx = some p) :
+    (Sys.run ⟨dev, []⟩ [.commit idx, .drain]).2 = [.queued, .tx p] := by
+  unfold Device.commit at h
+  cases h1 : dictGet dev.schedules idx with
+  | none => simp [h1] at h
+  | some w =>
+    cases h2 : dictGet dev.switches idx with
+    | none => simp [h1, h2] at h
+    | some sw =>
+      cases h3 : dictGet dev.params idx with
+      | none => simp [h1, h2, h3] at h
+      | some par =>
+        simp only [h1, h2, h3, Option.some.injEq] at h
+        simp [Sys.run, Sys.step, h1, h2, h3, Req.payload, Req.week, h]
+
+/-- **what IS guaranteed** (`commit_snapshot_partial`): whatever happens between `commit()` and
+the write — responses (which replace the Schedule objects), edits of OTHER schedules — the
+transmitted payload is the commit-time payload, as long as no edit addresses the committed
+schedule in between -/
+theorem commit_snapshot_partial (dev : Device) (idx : Nat) (p : List Byte) (mid : List Ev)
+    (h : dev.commit idx = some p) (hmid : ∀ ev ∈ mid, ev.harmlessFor idx = true) :
+    ∃ outs, (Sys.run ⟨dev, []⟩ (.commit idx :: (mid ++ [.drain]))).2 = .queued :: (outs ++ [.tx p]) := by
+  unfold Device.commit at h
+  cases h1 : dictGet dev.schedules idx with
+  | none => simp [h1] at h
+  | some w =>
+    cases h2 : dictGet dev.switches idx with
+    | none => simp [h1, h2] at h
+    | some sw =>
+      cases h3 : dictGet dev.params idx with
+      | none => simp [h1, h2, h3] at h
+      | some par =>
+        simp only [h1, h2, h3, Option.some.injEq] at h
+        have hstep : (Sys.step ⟨dev, []⟩ (.commit idx)) = (⟨dev, [⟨idx, sw, par, none⟩]⟩, .queued) := by
+          simp [Sys.step, h1, h2, h3]
+        obtain ⟨r', hq, _, hp⟩ := Sys.run_harmless ⟨dev, [⟨idx, sw, par, none⟩]⟩ ⟨idx, sw, par, none⟩ rfl mid hmid
+        refine ⟨(Sys.run ⟨dev, [⟨idx, sw, par, none⟩]⟩ mid).2, ?_⟩
+        have hcons : ∀ (s : Sys) (ev : Ev) (evs : List Ev), Sys.run s (ev :: evs) =
+            ((Sys.run (s.step ev).1 evs).1, (s.step ev).2 :: (Sys.run (s.step ev).1 evs).2) := fun _ _ _ => rfl
+        rw [hcons, hstep, Sys.run_append]
+        simp only [List.cons.injEq, true_and, List.append_cancel_left_eq]
+        rw [hcons]
+        simp only [Sys.step, hq, Sys.run, hp]
+        simp [Req.payload, Req.week, h1, h]
+
+/-- the FULL statement one would like ("the edited week AT COMMIT TIME is what is sent"), for
+every history of responses and edits between `commit()` and the write -/
+def commit_snapshot_full : Prop :=
+  ∀ (dev : Device) (idx : Nat) (p : List Byte) (mid : List Ev), dev.commit idx = some p →
+    (∀ ev ∈ mid, match ev with | .receive _ => True | .edit _ => True | _ => False) →
+    ∃ outs, (Sys.run ⟨dev, []⟩ (.commit idx :: (mid ++ [.drain]))).2 = .queued :: (outs ++ [.tx p])
+
+private def witnessMsg : List Byte := [0, 0, 1, 3, 1, 20, 0, 50] ++ List.replicate 42 0
+private def witnessDev : Device :=
+  (Device.init.receive witnessMsg).getD Device.init
+private def witnessEdit : Edit := ⟨3, .tuesday, "on", .hm 0 0, .hm 0 0⟩
+
+/-- **witness of F6**: schedule 3 received all-off, committed, then Tuesday switched on for the
+whole day BEFORE the producer writes the frame — the transmitted bitmap has Tuesday (bytes
+12..17) all ones although the week committed was all-off -/
+theorem commit_live_witness :
+    witnessDev.commit 3 = some ([1, 3, 1, 20] ++ List.replicate 42 0) ∧
+    (Sys.run ⟨witnessDev, []⟩ [.commit 3, .edit witnessEdit, .drain]).2 =
+      [.queued, .edited .ok,
+       .tx ([1, 3, 1, 20] ++ List.replicate 12 0 ++ List.replicate 6 0xFF ++ List.replicate 24 0)] := by
+  decide +kernel
+
+/-- the full statement is FALSE of the model (and of the code: finding F6) -/
+theorem commit_snapshot_full_false : ¬ commit_snapshot_full := by
+  intro h
+  obtain ⟨outs, ho⟩ := h witnessDev 3 _ [.edit witnessEdit] commit_live_witness.1
+    (by intro ev hev; simp at hev; subst hev; trivial)
+  have hw := commit_live_witness.2
+  simp only [List.cons_append, List.nil_append] at ho
+  rw [hw] at ho
+  simp only [List.cons.injEq, true_and] at ho
+  -- outs ++ [tx p] = [edited ok, tx p'] forces p = p'
+  have : outs = [.edited .ok] ∧
+      Out.tx ([1, 3, 1, 20] ++ List.replicate 12 0 ++ List.replicate 6 0xFF ++ List.replicate 24 0) =
+        Out.tx ([1, 3, 1, 20] ++ List.replicate 42 0) := by
+    match outs, ho with
+    | [o], ho =>
+      simp only [List.cons_append, List.nil_append, List.cons.injEq, and_true] at ho
+      exact ⟨by rw [ho.1], ho.2⟩
+    | [], ho => simp at ho
+    | _ :: _ :: _, ho => simp at ho
+  have hne : (Out.tx ([1, 3, 1, 20] ++ List.replicate 12 0 ++ List.replicate 6 0xFF ++ List.replicate 24 0) =
+      Out.tx ([1, 3, 1, 20] ++ List.replicate 42 0)) = False := by decide +kernel
+  exact hne ▸ this.2
 
 /-! ### tie to the source (translator tables) -/
 
